@@ -5,8 +5,11 @@
    additional write calls pickle.dump issues for s (arbitrary).  [iter_ops] is the per-iteration
    persistence protocol of the code as it is (after fix C24-1: temporary file + os.replace);
    [iter_ops_old] is the protocol of the unfixed code (truncate last.pkl, then write).
-   [chain n r0 cps d0] is the directory after: a first run (resume = r0) on d0 killed at crash point
-   cps[0], a restart with resume=True killed at cps[1], ...   A crash point (k, lost) kills the
+   The `resume` argument is RNo (False), RYes (True) or RPath p (a string: p = Some s if it names
+   an existing file holding a complete pickle of s, None if it names no existing file -- then the
+   driver falls back to last.pkl).  [chain n r0 cps d0] is the directory after: a first run
+   (resume = r0) on d0 killed at crash point cps[0], a restart with resume enabled ([restart r0]:
+   True, or the same string again) killed at cps[1], ...   A crash point (k, lost) kills the
    process after its first k file-system operations (k beyond the end = not killed); lost = true:
    bytes still in Python's buffers, and the write in flight, reach the disk only partially;
    lost = false: everything handed over so far reached the disk. *)
@@ -22,9 +25,9 @@ Require Import NV.C24.Model NV.C24.Proofs.
 Theorem C24_resume_equiv :
   forall (St : Type) (step : St -> St) (init : St) (nit extra : St -> nat),
     nit init = 0 -> (forall s, nit (step s) = S (nit s)) ->
-    forall (n : nat) (r0 : bool) (cps : list (nat * bool)) (d0 : disk St),
-      d_last St d0 = None ->
-      snd (run St step init nit (iter_ops St extra) true n
+    forall (n : nat) (r0 : rmode St) (cps : list (nat * bool)) (d0 : disk St),
+      not_path St r0 -> d_last St d0 = None ->
+      snd (run St step init nit (iter_ops St extra) (restart St r0) n
              (chain St step init nit (iter_ops St extra) n r0 cps d0))
       = Ok (Nat.iter n step init).
 Proof. exact resume_equiv. Qed.
@@ -33,8 +36,8 @@ Proof. exact resume_equiv. Qed.
 Theorem C24_uninterrupted :
   forall (St : Type) (step : St -> St) (init : St) (nit extra : St -> nat),
     nit init = 0 -> (forall s, nit (step s) = S (nit s)) ->
-    forall (n : nat) (r : bool) (d0 : disk St),
-      d_last St d0 = None ->
+    forall (n : nat) (r : rmode St) (d0 : disk St),
+      not_path St r -> d_last St d0 = None ->
       snd (run St step init nit (iter_ops St extra) r n d0) = Ok (Nat.iter n step init).
 Proof. exact uninterrupted. Qed.
 
@@ -44,8 +47,8 @@ Proof. exact uninterrupted. Qed.
 Theorem C24_disk_invariant :
   forall (St : Type) (step : St -> St) (init : St) (nit extra : St -> nat),
     nit init = 0 -> (forall s, nit (step s) = S (nit s)) ->
-    forall (n : nat) (r0 : bool) (cps : list (nat * bool)) (d0 : disk St),
-      d_last St d0 = None ->
+    forall (n : nat) (r0 : rmode St) (cps : list (nat * bool)) (d0 : disk St),
+      not_path St r0 -> d_last St d0 = None ->
       let d := chain St step init nit (iter_ops St extra) n r0 cps d0 in
       d_last St d = None \/ exists j, j <= n /\ d_last St d = Some (Valid (Nat.iter j step init)).
 Proof. exact disk_invariant. Qed.
@@ -54,10 +57,25 @@ Proof. exact disk_invariant. Qed.
    log) and a left-over temporary file never influence it.  Holds for every protocol body. *)
 Theorem C24_minisanity_benign :
   forall (St : Type) (step : St -> St) (init : St) (nit : St -> nat) (body : St -> list (op St))
-         (r : bool) (n : nat) (d d' : disk St),
+         (r : rmode St) (n : nat) (d d' : disk St),
     d_last St d = d_last St d' ->
     snd (run St step init nit body r n d) = snd (run St step init nit body r n d').
 Proof. exact log_benign. Qed.
+
+(* resume = "<path>" naming an existing file with a complete pickle of sP (a checkpoint outside the
+   output directory, which the driver never writes): for every protocol body, every directory and
+   every crash chain, the restart with the same argument starts from sP again and returns what
+   the uninterrupted run with that argument returns, n - nit sP applications of step to sP; the
+   progress recorded in last.pkl is ignored, never harmful.  ([not_path] in the theorems above
+   covers resume=False, True, and a string that names no existing file.) *)
+Theorem C24_resume_path_equiv :
+  forall (St : Type) (step : St -> St) (init : St) (nit : St -> nat) (body : St -> list (op St))
+         (n : nat) (sP : St) (cps : list (nat * bool)) (d0 : disk St),
+    snd (run St step init nit body (RPath (Some sP)) n
+           (chain St step init nit body n (RPath (Some sP)) cps d0))
+    = Ok (Nat.iter (n - nit sP) step sP)
+    /\ snd (run St step init nit body (RPath (Some sP)) n d0) = Ok (Nat.iter (n - nit sP) step sP).
+Proof. exact resume_path_equiv. Qed.
 
 (* About the OLD protocol only (documentation of defect F11 / fix C24-1): with the unfixed
    truncate-then-write code, killing the very first run right after `open(last_fn, "wb")`
@@ -65,8 +83,8 @@ Proof. exact log_benign. Qed.
 Theorem C24_old_protocol_refuted :
   forall (St : Type) (step : St -> St) (init : St) (nit extra : St -> nat),
     nit init = 0 ->
-    snd (run St step init nit (iter_ops_old St extra) true 1
-           (crashed St step init nit (iter_ops_old St extra) false 1 (empty_disk St) 7 true)) = Stuck.
+    snd (run St step init nit (iter_ops_old St extra) RYes 1
+           (crashed St step init nit (iter_ops_old St extra) RNo 1 (empty_disk St) 7 true)) = Stuck.
 Proof. exact old_protocol_stuck. Qed.
 
 (* Non-vacuity on the instance the correspondence check runs (states = iteration counters):
@@ -74,12 +92,12 @@ Proof. exact old_protocol_stuck. Qed.
    older state on disk, and the OLD protocol also loses the state of iteration 1 when killed
    inside iteration 2. *)
 Example C24_instance_fixed :
-  ichain false [0; 0; 0] 3 false [(16, true)] (empty_disk nat)
+  ichain false [0; 0; 0] 3 RNo [(16, true)] (empty_disk nat)
   = mkDisk nat (Some (Valid 1)) (Some (Valid 2)) (Some 2)
-  /\ snd (irun false [0; 0; 0] true 3 (ichain false [0; 0; 0] 3 false [(16, true)] (empty_disk nat))) = Ok 3.
+  /\ snd (irun false [0; 0; 0] RYes 3 (ichain false [0; 0; 0] 3 RNo [(16, true)] (empty_disk nat))) = Ok 3.
 Proof. split; reflexivity. Qed.
 
 Example C24_instance_old :
-  obs_last (ichain true [0; 0; 0] 3 false [(14, true)] (empty_disk nat)) = LTorn
-  /\ snd (irun true [0; 0; 0] true 3 (ichain true [0; 0; 0] 3 false [(14, true)] (empty_disk nat))) = Stuck.
+  obs_last (ichain true [0; 0; 0] 3 RNo [(14, true)] (empty_disk nat)) = LTorn
+  /\ snd (irun true [0; 0; 0] RYes 3 (ichain true [0; 0; 0] 3 RNo [(14, true)] (empty_disk nat))) = Stuck.
 Proof. split; reflexivity. Qed.
